@@ -109,8 +109,8 @@ def run(prop_id, cs, Cm):
     binary = os.path.join(Cm.TARGET, "debug", "harness_net")
     lines = list(dict.fromkeys(l for l, _ in cs))
     outs = Cm.run_lines(binary, lines, shards=8)
-    again = [i for i, o in enumerate(outs) if flaky(o)]
-    if again:      # once more, two at a time, with a longer limit (a loaded machine)
+    again = [i for i, o in enumerate(outs) if flaky(o) or not o.startswith("same")]
+    if again:      # whatever is not "same" is taken once more, two at a time, with a longer limit (a loaded machine, a port race); what persists is judged
         for i, o in zip(again, Cm.run_lines(binary, [lines[i] for i in again], shards=2, env=dict(Cm.ENV, VERIF_NET_WATCHDOG="60"))):
             outs[i] = o
     bad = 0
